@@ -1417,7 +1417,7 @@ class StateEngine(object):
             context["State"] = {"Name": None}
         current_state = context["State"].get("Name")
 
-        if not current_state:
+        if not current_state and "Branch" not in context["State"]:
             """
             If current_state is uninitialised it means we are the Start State.
             If so initialise unset context fields and start OpenTracing span.
